@@ -85,7 +85,9 @@ func vC08Reduce[T vOrdNum]() {
 	})
 	vReach("C08.Reduce")
 	// column-major finding (C16): reductions over a column-major operand panic or fold the wrong lanes
-	kfF := vCfgStr("la") == "F"
+	// (mapped on the pinned tree with the finding closed: only reductions whose first reduced axis is a middle axis fail
+	// - they panic; the last axis alone is refused "NYI: colmajor", everything else is correct)
+	kfF := vCfgStr("la") == "F" && len(along) > 0 && along[0] > 0 && along[0] < len(shape)-1
 	vAssertKF(!pan, "no-panic", "KF-C16-reduce", kfF)
 	if pan {
 		return
